@@ -4,16 +4,18 @@ import sys
 here = os.path.dirname(os.path.abspath(__file__))
 sys.path.insert(0, os.path.join(here, '..', 'fileio'))
 import fileio_proofs  # noqa: E402
+sys.path.insert(0, os.path.join(here, '..', 'shared'))
+import end_proof  # noqa: E402
 import importlib.util  # noqa: E402
 spec = importlib.util.spec_from_file_location('c09proofs', os.path.join(here, '..', 'C09', 'proofs.py'))
 c09 = importlib.util.module_from_spec(spec)
 spec.loader.exec_module(c09)
 NEED_OPTIONS = True
-PROOFS = [fileio_proofs.bcm_proof(), fileio_proofs.dsf_proof()] + [p for p in c09.PROOFS if p.name == 'write_byte_bout']
+PROOFS = [fileio_proofs.bcm_proof(), fileio_proofs.dsf_proof(), end_proof.end_proof()] + [p for p in c09.PROOFS if p.name == 'write_byte_bout']
 EXPLANATION = ('Kernel of C12: bout_content_matches() is true exactly when the captured output equals the input byte for byte (both directions, arbitrary '
                'index) and reports PASS/FAIL consistently; write_byte() appends to cpd.bout and writes nothing else when cpd.fout is NULL; do_source_file() '
                'performs no file-system modifying call under --check, and none under --if-changed when the comparison says unchanged.')
-K = ['K3 uncrustify_file: check_fail_cnt incremented exactly when --check and the buffers differ', 'K1 bout_content_matches: true <=> byte-equal; one PASS or FAIL line consistent with the result', 'K2 write_byte capture branch',
+K = ['K3 uncrustify_file: check_fail_cnt incremented exactly when --check and the buffers differ', 'K1 bout_content_matches: true <=> byte-equal; one PASS or FAIL line consistent with the result', 'K2 write_byte capture branch', 'K5 uncrustify_end: the capture buffer cpd.bout is emptied after every file (a file\'s comparison never sees bytes of the previous file)',
      'K4 do_source_file: --check => zero fs writes; --if-changed && unchanged => zero fs writes (early return)']
 G = ['main() turns check_fail_cnt into the exit status and rejects --check with output options / --if-changed (call-site precondition of do_source_file_contract; main is 740 lines of argument handling, not sliceable)',
      'cpd.bout really holds what output_text wrote: every byte goes through write_byte (C09 static fact)',
